@@ -20,7 +20,8 @@ META = dict(
          "Mark, UOD commands, blank and comment lines run on the real engine for three trajectories of the condition tag; "
          "every main-body instruction must start at most once, the order of first visits must be the reference order, an "
          "instruction is first visited only after its predecessor's visit ended and its parent started, lines of Alarm and "
-         "macro invocations start once per invocation, and trailing blank/comment lines are never completed or passed.",
+         "macro invocations start once per invocation (also: a body wrapped in a macro called twice / in an Alarm that fires "
+         "repeatedly leaves the marks of the body run alone, repeated), and trailing blank/comment lines are never completed or passed.",
     note="Programs <= 3 statements (4 thorough over a sub-grammar), nesting <= 2; the order oracle is skipped where End "
          "block(s) sits in a Watch/Alarm body (the interrupt ends the main flow's block at a time the statement does not fix); "
          "horizon 40 ticks.",
@@ -115,6 +116,50 @@ def check_item(item):
     return out, nontrivial
 
 
+REP_KINDS = ["M", "K", "EB", "W"]
+REP_HORIZON = 70
+
+
+def check_repetition(item):
+    """Differential oracle for bodies that run repeatedly: the marks of 'Macro: A <body> / Call macro: A / Call macro: A / Mark: z'
+    must be the body's own marks twice followed by z, and the marks of 'Alarm: X > 1 <body>' with X > 1 throughout must be the
+    body's marks repeated (at least two rounds within the horizon): every line of the body starts once per invocation."""
+    _, forest, _ = item
+    body = pgen.render(forest)
+    if refsem.reference(pgen.to_lines(forest))["end"] != "idle":
+        return [], False
+    run = Run("\n".join(body), observe=())
+    for _ in range(30):
+        run.tick()
+    mb, bad = run.marks(), bool(run.error_events)
+    run.cleanup()
+    if bad or not mb:
+        return [], False
+    probs = []
+    for wrap in ("macro", "alarm"):
+        if wrap == "macro":
+            lines = ["Macro: A"] + ["    " + l for l in body] + ["Call macro: A", "Call macro: A", "Mark: z"]
+        else:
+            lines = ["Alarm: X > 1"] + ["    " + l for l in body]
+        run = Run("\n".join(lines), observe=())
+        run.set_input("X", 2.0)
+        for _ in range(REP_HORIZON):
+            run.tick()
+        got, bad = run.marks(), bool(run.error_events)
+        run.cleanup()
+        if wrap == "macro":
+            ok = got == mb + mb + ["z"]
+            want = mb + mb + ["z"]
+        else:
+            want = (mb * (len(got) // len(mb) + 2))[:max(len(got), 2 * len(mb))]
+            ok = got == want[:len(got)] and len(got) >= 2 * len(mb)
+        if not ok or bad:
+            has_block = "K" in pgen.kinds_flat(forest)
+            probs.append((f"C02:repeated-{wrap}-body-differs-from-body-run-alone:{'with-block' if has_block else 'plain'}",
+                          f"program {lines}: marks {got}; the body alone gives {mb}, so {want} was expected" + (" (run entered the error state)" if bad else "")))
+    return probs, True
+
+
 def corpus(ctx):
     fs = [f for f in pgen.programs(KINDS, 3, depth=2) if pgen.no_empty_openers(f)]
     if not ctx.quick:
@@ -125,30 +170,54 @@ def corpus(ctx):
         trajs = ["never", "from4", "from12"] if any(k in ("Wa", "Al") for k in ks) else ["never"]
         for tr in trajs:
             items.append((f, tr))
+    for f in pgen.programs(REP_KINDS, 4 if ctx.quick else 5, depth=2):
+        if pgen.no_empty_openers(f) and "M" in pgen.kinds_flat(f):
+            items.append(("rep", f, None))
     return items
+
+
+def _check(item):
+    return check_repetition(item) if item[0] == "rep" else check_item(item)
 
 
 def run(ctx):
     items = corpus(ctx)
-    ctx.prove_deterministic(lambda it: check_item(it)[0], [items[5], items[len(items) // 2]], k=2)
-    results = ctx.pmap(check_item, items)
+    ctx.prove_deterministic(lambda it: _check(it)[0], [items[5], items[len(items) // 2], items[-3]], k=2)
+    results = ctx.pmap(_check, items)
     nontrivial = 0
     for it, (viol, nt) in zip(items, results):
         nontrivial += 1 if nt else 0
         for sig, what in viol:
-            ctx.violation(sig, what, {"lines": pgen.render(it[0]), "traj": it[1]})
+            if it[0] == "rep":
+                ctx.violation(sig, what, {"rep": pgen.render(it[1])})
+            else:
+                ctx.violation(sig, what, {"lines": pgen.render(it[0]), "traj": it[1]})
+    reps = sum(1 for it, (_, nt) in zip(items, results) if it[0] == "rep" and nt)
+    if reps < 50:
+        raise HarnessError("vacuous: repetition family")
+    plain = [it for it in items if it[0] != "rep"]
     if nontrivial < 100:
         raise HarnessError("vacuous corpus")
     ctx.coverage.update(
         states=len(items) * HORIZON, transitions=len(items) * HORIZON, traces_validated_against_impl=len(items),
-        evaluations=len(items), distinct_nontrivial=nontrivial, programs=len({pgen.text(i[0]) for i in items}),
+        evaluations=len(items), distinct_nontrivial=nontrivial, programs=len({pgen.text(i[0]) for i in plain}),
+        repeated_bodies=reps,
         rule="every program up to the size bound x condition trajectory {never, true from tick 4, true from tick 12}; "
-             "non-trivial = the reference main flow has at least two instructions",
-        samples=[pgen.render(items[10][0]), pgen.render(items[len(items) // 2][0]), pgen.render(items[-1][0])],
+             "non-trivial = the reference main flow has at least two instructions; plus every terminating body over "
+             f"{REP_KINDS} up to the size bound wrapped in a macro called twice and in an Alarm whose condition stays true "
+             "(marks compared with the body run alone)",
+        samples=[pgen.render(plain[10][0]), pgen.render(plain[len(plain) // 2][0]), pgen.render(plain[-1][0])],
         exhaustive=True, horizon=HORIZON)
 
 
 def replay(data):
+    if "rep" in data:
+        f = _forest(data["rep"])
+        print("body:", data["rep"])
+        viol, _ = check_repetition(("rep", f, None))
+        for _, w in viol:
+            print(w)
+        return viol
     lines = data["lines"]
     f = _forest(lines)
     viol, _ = check_item((f, data["traj"]))
